@@ -1,7 +1,7 @@
 (* C15/Props.v : the property theorems.  Model: C15/Model.v; specification: Model.denote
    (structural recursion with matrix sum/product/power over Base/Mat.embed).  *)
 From Coq Require Import ZArith List Bool Arith Sorted Permutation.
-From QV Require Import Base.Mat Base.Zi C15.MatDefs C15.Model C15.MatAlg C15.Proofs C15.Proofs2 C15.Proofs3 C15.Proofs4.
+From QV Require Import Base.Mat Base.Zi C15.MatDefs C15.Model C15.MatAlg C15.Proofs C15.Proofs2 C15.Proofs3 C15.Proofs4 C15.Proofs5.
 Import ListNotations.
 
 (* ---- dense route: _get_symbol_matrix / calculate_dense compute the mathematical operator ---- *)
@@ -142,3 +142,21 @@ Proof.
   destruct dense_samples_partial_witness as (H1 & H2 & H3). repeat split; try assumption. rewrite H3. discriminate.
 Qed.
 Print Assumptions samples_dense_partial_map_refuted.
+
+(* ---- model builders (hamiltonians/models.py): dense builder = documented formula, for every n.
+        Heisenberg / XXZ / XXX are covered by the correspondence only (n = 2..5), not proved. ---- *)
+Theorem models_ok_tfim : forall n h, 1 < n -> tfim_dense n h = denote n (tfim_form n h).
+Proof. exact tfim_ok. Qed.
+Print Assumptions models_ok_tfim.
+
+Theorem models_ok_onebody : forall n p, 0 < n -> onebody_dense n p = denote n (onebody_form n p).
+Proof. exact onebody_ok. Qed.
+Print Assumptions models_ok_onebody.
+
+(* MaxCut is built symbolically; its form denotes  - sum_{i,j} adj[i][j] (I - Z_i Z_j)  ( = 2 H ) *)
+Theorem models_ok_maxcut : forall n adj, 0 < n -> denote n (maxcut2_form n adj) = maxcut2_spec n adj.
+Proof. exact maxcut_ok. Qed.
+Print Assumptions models_ok_maxcut.
+
+Example models_nonvacuous : tfim_dense 3 2 = denote 3 (tfim_form 3 2) /\ length (tfim_dense 3 2) = 8.
+Proof. split; vm_compute; reflexivity. Qed.
